@@ -133,7 +133,7 @@ let read_only = function Fetch _ | Exists _ | Resolve _ | Preds _ | Tags -> true
 (* [constrained o]: the observed output of this concurrent operation must be the one the
    sequential model gives at its place in the order (operations whose result is decided at
    one atomic step: everything but Predecessors on the memory store, Push on the file
-   store).  Unconstrained read-only operations are dropped from the search. *)
+   store, Exists/Fetch on the OCI store).  Unconstrained read-only operations are dropped from the search. *)
 let serialisable (type s) ?(constrained : op -> bool = fun _ -> false)
     (step : s -> op -> s * string) (init : s) (repr : s -> string)
     (evs : ev array) (probe : ev list) : bool =
@@ -215,7 +215,10 @@ let () =
                (fun s o -> let (s', x) = mem_step s o in (s', show_out x)) mem_init
                (fun s -> let a = mem_abs s in show_content_mem a.sp_content ^ "#" ^ show_tags a.sp_tags ^ "#" ^ show_graph s.m_graph) evs probe
            | "oci" ->
-             serialisable (fun s o -> let (s', x) = oci_step s o in (s', show_out x)) oci_init
+             (* content-map reads are atomic (stat/open of a blob file that appears by rename and
+                disappears only under the exclusive lock): C06_reads_linearisable_oci *)
+             serialisable ~constrained:(function Exists _ | Fetch _ -> true | _ -> false)
+               (fun s o -> let (s', x) = oci_step s o in (s', show_out x)) oci_init
                (fun s -> let a = oci_abs s in show_content_oci a.sp_content ^ "#" ^ show_tags a.sp_tags ^ "#" ^ show_graph s.o_graph) evs probe
            | _ -> failwith "store" in
          Printf.printf "%s LIN %s\n" id (if ok then "ok" else "fail")
